@@ -48,6 +48,28 @@ def build_derived_twice(spec):
 
 
 def _tv_job(job):
+    if job.get('same_sub'):
+        # ONE sub-circuit template object under two keys, then per-node values on single branches (update_var replaces
+        # the addressed branch by a copy that keeps the template NAME): the dump must keep the branches apart
+        import random
+        from . import c07
+        from .. import yamlio, tv
+        from ..spec import build_python as bp
+        spec, fp = c07.base_spec(job['shared'], job['hier'], same_sub=True)
+        ops, exp, _kw = c07.gen_history(spec, fp, random.Random(job['seed']), job['length'], job['hier'])
+        ops = [o for o in ops if o[0] == 'update_var']
+
+        def pre(_ct, _spec):
+            ct = c07.apply_ops(bp(spec, share_circuits=True), ops)
+            try:
+                return yamlio.roundtrip_template(ct)
+            except Exception as e:   # noqa
+                raise tv.CompileError(RuntimeError(f"to_yaml -> from_yaml fails: {type(e).__name__}: {e}"))
+        j = dict(job, spec=exp, builder='python', pre=pre)
+        r = tvjobs.tv_job(j)
+        r['exp_spec'] = exp
+        r['history'] = [str(o)[:100] for o in ops] + ['to_yaml -> from_yaml']
+        return r
     if job.get('derive_twice'):
         j = dict(job)
         j['builder'] = 'python'
@@ -113,6 +135,11 @@ def run(tier='quick', seed=0, only=None, verbose=False):
             for vec in (True, False):
                 jobs.append(dict(key=f"{key}|derived-twice-with-one-edits-dict|vec={vec}", spec=spec, vectorize=vec,
                                  backend='default', derive_twice=True))
+    for hier in (True, 2):
+        for i in range(2 if tier == 'quick' else 6):
+            jobs.append(dict(key=f"samesub:levels={int(hier) + 1}:{i}|update_var|roundtrip|vec={bool(i % 2)}", spec=None,
+                             vectorize=bool(i % 2), backend='default', same_sub=True, hier=hier, shared=bool(i % 2),
+                             seed=seed * 100 + i, length=0))
     # operator templates that share a NAME but are different objects with different default values (two and three)
     for key, spec in families.fam_zero_overrides()[:1] + families.fam_edges_two_nodes(1, 2)[:1]:
         for how in ('python', 'roundtrip'):
